@@ -1,6 +1,7 @@
 package props
 
 import (
+	"regexp"
 	"fmt"
 	"go/token"
 	"go/types"
@@ -157,6 +158,12 @@ func checkStateResponse(c *fw.Ctx) {
 			}
 			conds := condsOf(b)
 			admitted = strings.Contains(conds, "!makemap[") && strings.HasSuffix(strings.Split(conds, "!makemap[")[1], "]#1") || strings.Contains(conds, "#1") && strings.Contains(conds, "!")
+			if !admitted && regexp.MustCompile(`!\(\*?gmsl\.\w+\)\.[a-z_]\w*\(.*EventID\(`).MatchString(conds) {
+				// the failure record is an unexported type of its own and the admission asks one of its
+				// methods about the event's ID (`!rejected.has(id)`): what the method answers is not read
+				c.Undecided(rule, "only events without a recorded failure enter the auth-event lookup", "the admission is decided by a method of an unexported record type applied to the event's ID ("+c.P.Pos(fw.InstrPos(mu))+")")
+				continue
+			}
 			c.Check(admitted, rule, "only events without a recorded failure enter the auth-event lookup", c.P.Pos(fw.InstrPos(mu)), conds, "an event is admitted to eventsByID under ["+conds+"]")
 		}
 	}
@@ -346,6 +353,12 @@ func checkAuthChain(c *fw.Ctx) {
 			}
 			full := strings.Join(all, " && ")
 			ok2 := strings.Contains(full, "gmsl.checkAllowedByAuthEvents(") && (strings.Contains(full, "!(gmsl.checkAllowedByAuthEvents(") && strings.Contains(full, "!= nil)") || strings.Contains(full, "== nil)"))
+			if !ok2 && c.P.Func("checkAllowedByAuthEvents") == nil && regexp.MustCompile(`!\(\(\*?gmsl\.\w+\)\.[a-z_]\w*\(.*\) != nil\)|\(\(\*?gmsl\.\w+\)\.[a-z_]\w*\(.*\) == nil\)`).MatchString(full) {
+				// the routine that authorises against the auth events no longer exists under the name
+				// the rule knows; the mark is made past the nil verdict of an unexported method
+				c.Undecided(rule, "an event is marked verified only after its auth check passed", "no routine named checkAllowedByAuthEvents exists in this tree; the mark follows the nil verdict of another unexported routine ("+c.P.Pos(fw.InstrPos(mu))+")")
+				continue
+			}
 			c.Check(ok2, rule, "an event is marked verified only after its auth check passed", c.P.Pos(fw.InstrPos(mu)), "", "verifiedEvents[id] = true under ["+full+"]")
 		}
 	}
